@@ -34,6 +34,12 @@ def trainings(tier):
         for ng in ngrams:
             for al in (2, 3, 10):
                 yield l, dict(ngram=ng, alphabet_size=al, coverage=0.5)
+    if tier == 'thorough':
+        # every pair of strings over {a,b} of length 4..6 (dead ends, shared prefixes, cycles), alphabet large enough for both letters
+        words = [''.join(t) for n in (4, 5, 6) for t in itertools.product('ab', repeat=n)]
+        for a, b in itertools.combinations(words, 2):
+            for ng in (2, 3, 4):
+                yield [a, b], dict(ngram=ng, alphabet_size=10, coverage=0.5)
 
 
 def candidates(ngram, lines):
